@@ -269,10 +269,59 @@ func c14Sweep(w *core.Worker, i int) {
 	w.Case("sweep:"+fn, okCalls > 0)
 }
 
+// c14Transparent: a statement that only reads or lists (SHOW .., SELECT, PRINT, a cursor status) is put in front of a change made
+// inside a nested block; what the program reads inside the block and after it must be what it reads without that statement.
+func c14Transparent(w *core.Worker, i int) {
+	r := w.Rng(i, "transparent")
+	core.WriteFiles(w.Work, map[string]string{"f.csv": "a\n1\n"})
+	ros := []string{"SHOW VIEWS;", "SHOW TABLES;", "SHOW CURSORS;", "SHOW FUNCTIONS;", "SHOW FIELDS FROM t;", "SELECT COUNT(*) FROM t;", "SHOW VIEWS; SHOW VIEWS;", "PRINT (SELECT MAX(a) FROM t);", "SELECT * FROM t WHERE a < 0;", "SHOW FLAGS;", "SHOW STATEMENTS;", "SELECT CURSOR c IS OPEN;", "SHOW VIEWS; SHOW CURSORS; SHOW FUNCTIONS;"}
+	changes := []string{"UPDATE t SET a = a + 1;", "INSERT INTO t VALUES (7);", "DELETE FROM t WHERE a = 1;", "ALTER TABLE t ADD b DEFAULT 5;", "@v := @v + 1; UPDATE t SET a = @v;", "OPEN c; FETCH c INTO @v;", "DISPOSE CURSOR c; DECLARE c CURSOR FOR SELECT 9;", "DECLARE g FUNCTION () AS BEGIN RETURN 2; END; @v := g();"}
+	blocks := []string{"IF TRUE THEN\n%s\nEND IF;", "VAR @w := 0; WHILE @w < 1 DO\n@w := @w + 1;\n%s\nEND WHILE;", "CASE WHEN TRUE THEN\n%s\nEND CASE;", "DECLARE blk FUNCTION () AS BEGIN\n%s\nRETURN 0; END; VAR @r := blk();", "IF TRUE THEN IF TRUE THEN\n%s\nEND IF; END IF;"}
+	for k := 0; k < 12; k++ {
+		ro, ch, blk := ros[r.Intn(len(ros))], changes[r.Intn(len(changes))], blocks[r.Intn(len(blocks))]
+		tdecl := []string{"DECLARE t VIEW (a) AS SELECT 1;", "DECLARE t VIEW (a) AS SELECT a FROM f;"}[r.Intn(2)]
+		prog := func(with bool) string {
+			body := ch + "\nSELECT 'inside', a FROM t;"
+			if with {
+				body = ro + "\n" + body
+			}
+			return tdecl + " VAR @v := 1; DECLARE c CURSOR FOR SELECT 3; DECLARE g FUNCTION () AS BEGIN RETURN 1; END;\n" + fmt.Sprintf(blk, body) + "\nSELECT 'after', a, @v, g() FROM t; SELECT 'cursor', CURSOR c IS OPEN;"
+		}
+		tail := func(res core.ExecResult) string {
+			var parts []string
+			for _, v := range res.Views {
+				if len(v.Rows) > 0 && len(v.Rows[0]) > 0 && (v.Rows[0][0].S == "inside" || v.Rows[0][0].S == "after" || v.Rows[0][0].S == "cursor") {
+					parts = append(parts, viewRows(v))
+				}
+			}
+			return strings.Join(parts, " | ") + fmt.Sprint(" err=", res.Err != nil)
+		}
+		var out [2]string
+		for j, with := range []bool{false, true} {
+			s, err := core.NewSess(core.SessOpts{Dir: w.Work, Quiet: true})
+			if err != nil {
+				w.Inconclusive(err.Error())
+				return
+			}
+			res := s.Exec(prog(with))
+			out[j] = tail(res)
+			s.Close()
+		}
+		if out[0] != out[1] {
+			w.Violation("read-only-statement-changes-later-readings", fmt.Sprintf("with %q in front of %q inside the block the program reads [%s], without it [%s]\n%s", ro, ch, out[1], out[0], prog(true)), c14Replay{Expr: ro, Stmts: []string{prog(true)}, Detail: "without the statement: " + out[0] + "; with it: " + out[1]})
+		}
+		w.Count("programs_compared_with_and_without_a_read-only_statement", 1)
+	}
+	w.Case(core.Digest("transparent", fmt.Sprint(i)), true)
+}
+
 func c14Case(w *core.Worker, i int) {
 	if i < len(c14Names()) {
 		c14Sweep(w, i)
 		return
+	}
+	if i%9 == 2 {
+		c14Transparent(w, i)
 	}
 	r := w.Rng(i, "")
 	expr, volatile, args := c14Expr(r, i)
